@@ -5,6 +5,7 @@
    ("a crash immediately after any journal deletion loses nothing") is decided on the real code by fault enumeration
    (py/props/c10.py); the theorems give the reason for every interleaving of these steps. *)
 From FJ Require Import Bytes JournalMgr JournalMgrP.
+From FJ Require Import Reader Lsm Tracker Db OrderP DbOrderP RefineP RecoverInvP JournalInvP.
 
 (* every record of every unlinked journal file had reached a table of its keyspace, or the keyspace was deleted *)
 Theorem C10_evicted_only_when_durable : forall (ops : list jop) (k x : N),
@@ -31,7 +32,34 @@ Theorem C10_example :
   m_evicted (jrun (c10_example ++ [JRotate 2; JFlush 2; JMaint])) = [(1, 0); (2, 1); (1, 2); (2, 2)].
 Proof. exact c10_example_runs. Qed.
 
+(* at the level of the database model (Db.v: the journal as sealed files + active file, eviction by JournalManager::maintenance's
+   rule against the watermarks taken at sealing, flush, rotation, compaction, ingestion, clear): in EVERY state reached by a
+   program of keyspace creation, writes, batches, clears, ingestion, rotation, worker steps, drains and major compaction, every
+   entry that lives only in a memtable (active or sealed) of a registered, undeleted keyspace has its batch in a journal file
+   that still exists — a journal file is unlinked only when nothing in it is still needed *)
+Theorem C10_journal_complete : forall mode filters (ops : list wop) (ks : kspace) (e : ent),
+  let d := fold_left wstep ops (db_init mode filters) in
+  In ks (d_kss d) -> In (k_id ks) (map snd (d_map d)) -> k_deleted ks = false ->
+  In e (memsrc (k_tree ks)) -> exists b, In b (J d) /\ rb_seqno b = es e.
+Proof. exact journal_complete. Qed.
+
+(* ... also with keyspace deletions anywhere in the program: a deleted keyspace no longer holds a journal back, but deleting it
+   never releases a journal that another registered keyspace still needs *)
+Theorem C10_journal_complete_with_deletion : forall mode filters (ops : list dop) (ks : kspace) (e : ent),
+  let d := fold_left dstep ops (db_init mode filters) in
+  In ks (d_kss d) -> In (k_id ks) (map snd (d_map d)) -> k_deleted ks = false ->
+  In e (memsrc (k_tree ks)) -> exists b, In b (J d) /\ rb_seqno b = es e.
+Proof. exact journal_complete_with_deletion. Qed.
+
+(* the step that matters: eviction keeps the invariant (M2: completeness, M3: a sealed journal's watermarks cover every
+   memtable entry of a registered keyspace whose batch it holds) *)
+Theorem C10_eviction_keeps_journal_complete : forall d, UQ d -> DInv d -> MJ d -> MJ (journal_maintenance d).
+Proof. exact MJ_evict. Qed.
+
 Print Assumptions C10_evicted_only_when_durable.
 Print Assumptions C10_oldest_first.
 Print Assumptions C10_back_to_one_partial.
 Print Assumptions C10_example.
+Print Assumptions C10_journal_complete.
+Print Assumptions C10_eviction_keeps_journal_complete.
+Print Assumptions C10_journal_complete_with_deletion.
